@@ -116,6 +116,14 @@ def qualname_of(obj):
     qn = getattr(obj, "__qualname__", None) or getattr(obj, "__name__", None)
     if inspect.ismodule(obj):
         return obj.__name__
+    if mod is None and inspect.isbuiltin(obj):
+        owner = getattr(obj, "__self__", None)
+        if isinstance(owner, type):
+            return f"{owner.__module__}.{owner.__qualname__}.{obj.__name__}"
+        if inspect.ismodule(owner):
+            return f"{owner.__name__}.{obj.__name__}"
+    if inspect.ismethod(obj) and isinstance(obj.__self__, type):
+        return f"{obj.__self__.__module__}.{obj.__self__.__qualname__}.{obj.__name__}"
     if mod and qn:
         return f"{mod}.{qn}"
     return None
